@@ -181,6 +181,7 @@ type input struct {
 	Pad    int   `json:"pad,omitempty"`    // rtp-write: 1 = padding bit with PaddingSize 0 (legacy form), 2 = PaddingSize 4
 	Fill   int   `json:"fill,omitempty"`   // rtp-write: value of the last payload byte (legacy padding count)
 	HS     int   `json:"hs,omitempty"`     // rtp-write: header SSRC: 0 the bound stream's, 1 its RTX SSRC, 2 its FEC SSRC, 3 never bound, 4 zero, 5 0xFFFFFFFF
+	XLen   int   `json:"xlen,omitempty"`   // rtp-write: n > 0: the element under the negotiated transport-cc id carries n-1 bytes instead of 2
 	K      int64 `json:"k"`
 }
 
@@ -452,6 +453,28 @@ func genInput(r *rand.Rand, k int64) input {
 			in.HS = 1 + r.Intn(5)
 			in.Kind += "+ssrc-not-bound"
 		}
+		// (round 5, drawn last again) the LENGTH of the element under the negotiated id is the application's as well
+		if r.Intn(6) == 0 {
+			in.XLen = 1 + []int{0, 1, 3, 16, 17}[r.Intn(5)]
+			in.Kind += "+ext-elem-len"
+		}
+	}
+	// (round 5, drawn last) a well-framed RFC 8285 element of any length under the id the rig negotiated (1) or another one
+	if in.Path == "rtp-read" && r.Intn(6) == 0 {
+		op := extOp{Dir: 0, Slot: 0, Profile: prof1B, PayLen: r.Intn(40), CSRC: r.Intn(3), Trail: r.Intn(3)}
+		id := []int{1, 1, 1, 2, 14}[r.Intn(5)]
+		if r.Intn(2) == 0 {
+			op.Profile = prof2B
+			op.Elems = []extElem{{ID: id, Len: []int{0, 1, 2, 3, 16, 17, 255}[r.Intn(7)]}}
+		} else {
+			op.Elems = []extElem{{ID: id, Len: 1 + r.Intn(16)}}
+		}
+		if r.Intn(3) == 0 {
+			op.Elems = append([]extElem{{ID: 3 + r.Intn(10), Len: 1 + r.Intn(4), Pad: r.Intn(2)}}, op.Elems...)
+		}
+		raw, _, _ := extBytes(op, seq, seq)
+		binary.BigEndian.PutUint32(raw[8:12], mediaSSRC)
+		in.Kind, in.Hex, in.BufLen = "ext-elem", hex.EncodeToString(raw), 1500
 	}
 
 	return in
@@ -562,6 +585,9 @@ func (g *rig) apply(in input, r *rand.Rand) outcome {
 			}
 			if in.Shape%6 != 5 {
 				_ = h.SetExtension(1, []byte{byte(g.wseq >> 8), byte(g.wseq)})
+				if in.XLen > 0 {
+					_ = h.SetExtension(1, make([]byte, in.XLen-1)) // (refused by the header for a length its profile cannot express: then the 2 bytes stay)
+				}
 			}
 			switch in.HS {
 			case 1:
@@ -630,7 +656,7 @@ func worker(name string, seed int64, n, from int64) {
 		}
 		hist[in.Path+":"+in.Kind]++
 		if in.Hex != "" || in.PayLen > 0 { // non-trivial: not the empty input
-			distinct[fmt.Sprintf("%s|%s|%d|%d|%d|%d", in.Path, in.Hex, in.PayLen, in.Shape, in.BufLen, in.HS)] = true
+			distinct[fmt.Sprintf("%s|%s|%d|%d|%d|%d|%d", in.Path, in.Hex, in.PayLen, in.Shape, in.BufLen, in.HS, in.XLen)] = true
 		}
 		fmt.Fprintf(out, "I %d %s\n", k, mustJSON(in))
 		out.Flush()
@@ -805,6 +831,10 @@ func main() {
 	hs := &cq.Set{Name: "c02hist", Import: "IV.Check.C02Check", CaseType: "hist_case", Checks: []string{"hist_spec_failures"}}
 	rs := &cq.Set{Name: "c02rc", Import: "IV.Check.C02Check", CaseType: "rc_case", Checks: []string{"rc_mismatches", "rc_spec_failures"}}
 	ls := &cq.Set{Name: "c02life", Import: "IV.Check.C02Check", CaseType: "life_case", Checks: []string{"life_spec_failures"}}
+	var ess []*cq.Set // c02extr: read sweeps, c02extw: write sweeps, c02extm: other ids / several elements, c02exts: structural / random
+	for _, nm := range []string{"c02extr", "c02extw", "c02extm", "c02exts"} {
+		ess = append(ess, &cq.Set{Name: nm, Import: "IV.Check.C02Check", CaseType: "ext_case", Checks: []string{"ext_mismatches", "ext_spec_failures"}})
+	}
 	ns := &cq.Set{Name: "c02np", Import: "IV.Check.C02Check", CaseType: "np_case", Checks: []string{"np_mismatches", "np_spec_failures"}}
 	n := int64(o.Scale(20000, 400000))
 	seed := o.Seed
@@ -817,6 +847,7 @@ func main() {
 			RC   *rcScn   `json:"rc"`
 			Life *lifeScn `json:"life"`
 			NP   *npScn   `json:"np"`
+			Ext  *extScn  `json:"ext"`
 		}
 		set := cq.LoadReplay(o.Replay, &c)
 		switch {
@@ -828,6 +859,8 @@ func main() {
 			only, ts = &workItem{Life: stripLife(c.Life)}, nil
 		case c.NP != nil:
 			only, ts = &workItem{NP: stripNP(c.NP)}, nil
+		case c.Ext != nil:
+			only, ts = &workItem{Ext: stripExt(c.Ext)}, nil
 		case set == "c02size":
 			sizeCases(sz, o.Rand())
 		default:
@@ -903,6 +936,14 @@ func main() {
 	if o.Replay == "" || only != nil {
 		// after the byte-level fuzz (whose workers keep every core busy): the scenarios are paced in real time
 		// round 4 first (no real-time pacing in there), then the paced feedback histories
+		if only == nil || only.Ext != nil {
+			// round 5: header-extension elements of every length (no real-time pacing either)
+			efails, eextra := extSets(o, self, ess, only)
+			fails = append(fails, efails...)
+			for k, v := range eextra {
+				extra[k] = v
+			}
+		}
 		lfails, lextra := lifeSets(o, self, ls, ns, only)
 		fails = append(fails, lfails...)
 		for k, v := range lextra {
@@ -918,7 +959,8 @@ func main() {
 	}
 	cq.Write(o, "fuzz: per interceptor (17 configurations) one long-lived instance fed a seeded stream of inputs over its three paths "+
 		"(incoming RTP bytes, incoming RTCP bytes, outgoing RTP of any size/shape): random bytes, valid, mutated, X-bit on 12 bytes, small read buffers, "+
-		"TWCC with run length beyond the status count / fewer deltas than symbols, structured RFC 8888 blocks, payloads 0/1460/1461/huge, outgoing header SSRC not the bound stream's (RTX / FEC / never bound / 0 / 0xFFFFFFFF); each followed by a "+
+		"TWCC with run length beyond the status count / fewer deltas than symbols, structured RFC 8888 blocks, payloads 0/1460/1461/huge, outgoing header SSRC not the bound stream's (RTX / FEC / never bound / 0 / 0xFFFFFFFF), "+
+		"well-framed RFC 8285 elements of any length under the negotiated transport-cc id or another one (incoming), element of 0/1/3/16/17 bytes under it (outgoing); each followed by a "+
 		"well-formed probe; panics (caller or background goroutine, via worker processes), hangs, n_out > n_in and failing probes are failures; "+
 		"one case per target, non-trivial = at least 10 inputs; size: length-accounting cores compared with the Coq model; "+
 		"hist: well-formed stateful congestion-control histories (cc interceptor with both pacers, rtpfb; TWCC and RFC 8888): packets paced in real time, "+
@@ -931,8 +973,12 @@ func main() {
 		"an unbound stream; Bind / Unbind in between; finally a well-formed packet on every bound stream, Unbind, Close), every call under a watchdog, a well-formed "+
 		"packet must be accepted and reach a next writer; non-trivial = at least one inconsistent and one well-formed packet; "+
 		"np: call histories on a real gcc.NoOpPacer (directly / through SendSideBWE / through the cc interceptor: every kind of next call after one packet of "+
-		"every SSRC class, double add / remove, random longer ones) compared with Model/StreamTableLock.v, non-trivial = at least 3 calls",
-		[]*cq.Set{fz, sz, hs, rs, ls, ns}, extra, fails)
+		"every SSRC class, double add / remove, random longer ones) compared with Model/StreamTableLock.v, non-trivial = at least 3 calls"+
+			"; ext: header-extension histories on all 17 configurations (six local + remote streams that negotiated transport-cc under the ids 1, 5, 14, 15, 200 "+
+			"and not at all; incoming bytes, outgoing headers parsed from bytes or built with SetExtension; one-byte / two-byte / RFC 3550 profiles; an element of "+
+			"every length under the negotiated id and under others, repeated ids, padding, reserved ids, wrong declared block lengths), each followed by a well-formed "+
+			"packet of the same stream, compared with Model/HdrExt.v; non-trivial = at least one well-formed and one other packet",
+		append([]*cq.Set{fz, sz, hs, rs, ls, ns}, ess...), extra, fails)
 	_ = errors.New
 }
 
